@@ -235,7 +235,7 @@ pub fn replay(case: &monlib::Value, rep: &mut Report) {
                 _ => i += 1,
             }
         }
-        cycles.push(Cycle { new_game: c["ucinewgame"].as_bool().unwrap_or(false), position, go: g, stop_after_us: c["stop_after_us"].as_u64(), extra: vec![], during: c["during"].as_array().map(|a| a.iter().filter_map(|t| match t.as_str() { Some("ucinewgame") => Some(Gui::NewGame), Some("isready") => Some(Gui::IsReady), Some("uci") => Some(Gui::Uci), Some("debug on") => Some(Gui::Debug(true)), Some("debug off") => Some(Gui::Debug(false)), Some("ponderhit") => Some(Gui::PonderHit), _ => None }).collect()).unwrap_or_default(), follow_ponder: c["follow_ponder"].as_bool().unwrap_or(false), sibling: c["sibling"].as_bool().unwrap_or(false), late_stop: c["late_stop"].as_bool().unwrap_or(false) });
+        cycles.push(Cycle { new_game: c["ucinewgame"].as_bool().unwrap_or(false), position, go: g, stop_after_us: c["stop_after_us"].as_u64(), extra: vec![], during: c["during"].as_array().map(|a| a.iter().filter_map(|t| match t.as_str() { Some("ucinewgame") => Some(Gui::NewGame), Some("isready") => Some(Gui::IsReady), Some("uci") => Some(Gui::Uci), Some("debug on") => Some(Gui::Debug(true)), Some("debug off") => Some(Gui::Debug(false)), Some("ponderhit") => Some(Gui::PonderHit), Some("register later") => Some(Gui::Register(false)), Some("register name Some Body code 12345") => Some(Gui::Register(true)), _ => None }).collect()).unwrap_or_default(), follow_ponder: c["follow_ponder"].as_bool().unwrap_or(false), sibling: c["sibling"].as_bool().unwrap_or(false), late_stop: c["late_stop"].as_bool().unwrap_or(false) });
         roots.push(cur.clone().expect("first cycle has a position"));
     }
     let script = Script { cycles, poll_interval: sc["poll_interval"].as_u64().unwrap_or(0) };
